@@ -1,9 +1,8 @@
 #!/bin/bash
-# Re-run every claimed check on the current (unchanged) tree without the baseline guard, then rebuild
+# Re-run every claimed check on the current (unchanged) tree without the baseline guard (5 at a time), then rebuild
 # baseline_obligations.json from the evidence.  By hand, after contracts / checkers changed.
 cd /verif
 PROPS=$(.venv/bin/python -c "import json; print(' '.join(c['property_id'] for c in json.load(open('MANIFEST.json'))['checks']))")
-for p in $PROPS; do
-  VERIF_NO_BASELINE=1 ./check $p 2>&1 | grep -E "^VIOLATION|^CHECKER|^# " | cut -c1-180
-done
+mkdir -p /tmp/refresh
+echo $PROPS | tr ' ' '\n' | xargs -P 5 -I{} bash -c 'VERIF_NO_BASELINE=1 VERIF_JOBS=8 ./check {} > /tmp/refresh/{}.log 2>&1; echo "{} rc=$? $(grep -E "^# " /tmp/refresh/{}.log | cut -c1-170)"; grep -E "^VIOLATION|^CHECKER" /tmp/refresh/{}.log | head -3'
 .venv/bin/python tools/make_baseline.py $PROPS | tail -3
